@@ -121,6 +121,23 @@ def oracle_check(rep: Report, p: Prog, root, shape, real_out):
     return None
 
 
+def verdict(rep, p: Prog, root, shape, res):
+    """the property's oracle on one merge program and its real per-op results `res` (= run_real(p)):
+    None when the property holds, else (signature, what, replay dict).  Used by the sweep and by replay()."""
+    spec = p.spec
+    errs = [r for op, r in zip(p.ops, res) if op[0] in ("u", "m") and r is not None]
+    if errs:
+        return (f"C01|{spec.name}|{shape}|operation-raised", f"{spec.name}: {errs[0]} during a valid merge program",
+                {"program": p.describe(), "root": root, "shape": shape, "error": errs[0]})
+    real_out = res[-1]
+    bad = oracle_check(rep, p, root, shape, real_out)
+    if bad:
+        return (f"C01|{spec.name}|merged-differs-from-single",
+                f"{spec.name}{public_cfg(p.cfg)}: merge tree ({shape}) gives {obs_json(real_out)} but {bad['expected_by']} gives {bad['expected']}",
+                {"program": p.describe(), "root": root, "shape": shape, "merged": obs_json(real_out), **bad})
+    return None
+
+
 def one_round(rep: Report, rng: Rng, spec: Spec, cfg0: dict, n: int, max_batches: int):
     progs, meta = [], []
     for _ in range(n):
@@ -136,18 +153,11 @@ def one_round(rep: Report, rng: Rng, spec: Spec, cfg0: dict, n: int, max_batches
         rep.count(f"nonempty-shards:{min(nonempty,4)}")
         key = (spec.name, repr(public_cfg(p.cfg)), shape, ckey(p.describe())) if nonempty >= 2 else None
         rep.case(nontrivial_key=key, sample=p.describe() if (rep.evaluations % 997 == 0) else None)
-        errs = [r for op, r in zip(p.ops, res) if op[0] in ("u", "m") and r is not None]
-        if errs:
-            rep.count("op-raised")
-            rep.violation(f"C01|{spec.name}|{shape}|operation-raised", f"{spec.name}: {errs[0]} during a valid merge program",
-                          {"program": p.describe(), "error": errs[0]})
-            continue
-        real_out = res[-1]
-        bad = oracle_check(rep, p, root, shape, real_out)
-        if bad:
-            rep.violation(f"C01|{spec.name}|merged-differs-from-single",
-                          f"{spec.name}{public_cfg(p.cfg)}: merge tree ({shape}) gives {obs_json(real_out)} but {bad['expected_by']} gives {bad['expected']}",
-                          {"program": p.describe(), "shape": shape, "merged": obs_json(real_out), **bad})
+        v = verdict(rep, p, root, shape, res)
+        if v is not None:
+            if v[0].endswith("|operation-raised"):
+                rep.count("op-raised")
+            rep.violation(*v)
             continue
         if models is not None:
             rep.traces += 1
@@ -182,3 +192,19 @@ def search(rep: Report):
             if time.time() > deadline or rep.violations:
                 return
             one_round(rep, rng, spec, cfg0, 40, 14)
+
+
+def replay(payload) -> bool:
+    """True iff the property holds on the recorded merge program: the program is rebuilt from its description, run on the
+    real classes and judged by `verdict` (the oracle of the sweep: a real single instance fed the live batches)."""
+    if payload.get("kind", "failing-input") != "failing-input" or not (payload.get("replay") or {}).get("program"):
+        raise ValueError(f"nothing to replay: payload kind {payload.get('kind')!r} carries no merge program")
+    rp = payload["replay"]
+    p = Prog.from_describe(rp["program"])
+    if not p.ops or p.ops[-1][0] != "o":
+        raise ValueError("nothing to replay: the recorded program does not end with a compute()")
+    root = rp.get("root", p.ops[-1][1])
+    v = verdict(None, p, root, rp.get("shape", "?"), run_real(p))
+    if v is not None:
+        print(f"replay: {v[0]}: {v[1]}"[:600])
+    return v is None
